@@ -136,6 +136,7 @@ def check_property(prop, tier, seed, jobs=None, quiet=False):
     seen = sorted({r["name"] for r in instances})
     missing = [n for n in declared if n not in seen]
 
+    cnt = lambda rs: sum(r.get("count", 1) for r in rs)
     if canaries and canaries_ref < canaries:
         faults.append("vacuity: %d of %d canaries were not refuted (contradictory requires)" %
                       (canaries - canaries_ref, canaries))
@@ -145,7 +146,7 @@ def check_property(prop, tier, seed, jobs=None, quiet=False):
         faults.append("declared obligations never instantiated: %s" % missing)
 
     # thorough: independent re-check of undischarged VCs in cvc5 (disagreement is a fault)
-    by_backend = {"z3-5.1": len(discharged)}
+    by_backend = {"z3-5.1": cnt(discharged)}
     if tier == "thorough":
         n_cvc5 = 0
         for r in failed + unknown:
@@ -194,12 +195,12 @@ def check_property(prop, tier, seed, jobs=None, quiet=False):
         ex = next(r for r in instances if r["name"] == n)
         u = ex["_unit"]
         samples.append({"obligation": n, "text": u.obligations[n]["text"], "unit": u.name,
-                        "instances": sum(1 for r in instances if r["name"] == n),
+                        "instances": sum(r.get("count", 1) for r in instances if r["name"] == n),
                         "example_case": ex.get("sample")})
     ev = {
         "property_id": prop, "tier": tier, "seed": seed, "level": "proof",
         "coverage": {
-            "obligations": len(instances), "discharged": len(discharged),
+            "obligations": cnt(instances), "discharged": cnt(discharged),
             "named_obligations": len(seen),
             "checker_cmd": "./check %s --tier %s" % (prop, tier),
             "trusted_base": trusted + ["CPython 3.12 (module import of /repo constants and tables)"],
@@ -241,7 +242,7 @@ def check_property(prop, tier, seed, jobs=None, quiet=False):
         return EXIT_UNDECIDED
     if not quiet:
         print("OK property=%s obligations=%d discharged=%d named=%d paths=%d wall=%.1fs" % (
-            prop, len(instances), len(discharged), len(seen), paths, time.time() - t0))
+            prop, cnt(instances), cnt(discharged), len(seen), paths, time.time() - t0))
     return EXIT_OK
 
 
